@@ -18,7 +18,7 @@ ENTRIES = {
             "bounded exhaustive enumeration of the NNF conjunctive/else-if fragment, row multisets vs brute force; the()/Exactly(k) around the true count",
             "Every query of the fragment named by the property (atoms and negated atoms incl. Predicate subclasses and "
             "symbolic functions, and_, or_ only between operands over equal variable sets) with <=3 leaves over 2 variables "
-            "and <=2 leaves over 3 variables (thorough: 3 leaves over 3 variables, and 4 leaves over 2 variables with a core of four atoms) x 5 selections x 4 domain contents runs on the real engine; "
+            "and <=2 leaves over 3 variables (thorough: 3 leaves over 3 variables, and 4 leaves over 2 variables with a core of six atoms) x 5 selections x 4 domain contents runs on the real engine; "
             "the multiset of rows must equal the projection of all satisfying total assignments, and the()/"
             "an(Exactly(count-1|count|count+1)) must follow the true count.",
             "Row order not compared; bounds in evidence.bounds; CPython 3.12.",
